@@ -382,7 +382,8 @@ Fixpoint it_drain (W : Z) (o : ovf) (cnt : Z) (fuel : nat) (s : ist) (op : iop) 
   end.
 Definition stmt_C04_iter_collect : Prop :=
   forall W o cnt fuel, 0 <= cnt -> cnt + 1 < W -> (Z.to_nat cnt < fuel)%nat ->
-  it_drain W o cnt fuel ist0 OpNext = zseq 0 (Z.to_nat cnt) /  it_drain W o cnt fuel ist0 OpNextBack = rev (zseq 0 (Z.to_nat cnt)).
+  it_drain W o cnt fuel ist0 OpNext = zseq 0 (Z.to_nat cnt) /\
+  it_drain W o cnt fuel ist0 OpNextBack = rev (zseq 0 (Z.to_nat cnt)).
 (* the legacy (pinned) arithmetic violates the contract: nth(usize::MAX) on a fresh iterator *)
 Definition stmt_C05_legacy_refuted : Prop :=
   let W := 2 ^ 64 in
